@@ -227,14 +227,23 @@ def run_accessor_history(ctx, drv, name, factory, kind, seq, order, want_driver=
                 tag = (f"{name}: ONE object read under min_variance settings {seq}; step {k} (floor {b!r}), accessor `{acc}` "
                        f"(accessors read so far: {[a for o in order[:k] for a in o] + list(accs[:accs.index(acc)])})")
                 try:
-                    got = _read_accessor(acc, dist, kind, y, glik)
                     ref = _read_accessor(acc, twin, kind, y, glik)
+                except Exception:
+                    # undefined for a fresh object too (e.g. Normal(scale = 0) under floor 0.0 with a zero variance): not a history effect
+                    ctx is not None and ctx.count("accessor_undefined_for_fresh_object")
+                    continue
+                try:
+                    got = _read_accessor(acc, dist, kind, y, glik)
                 except Exception as e:
-                    fails.append((f"accessor-raises:{acc}", f"{tag}: {type(e).__name__}: {e}"[:600]))
+                    fails.append((f"accessor-raises:{acc}", f"{tag}: raises {type(e).__name__}: {e} although a freshly built equal object "
+                                  f"answers under the same floor"[:700]))
                     continue
                 for nm, val in got.items():
                     rv = ref[nm]
-                    same = torch.equal(val, rv) if exact else torch.allclose(val, rv, rtol=1e-10, atol=1e-13)
+                    if exact:       # bitwise, NaN == NaN (log-loss of a zero variance under floor 0.0 is legitimately inf - inf)
+                        same = val.shape == rv.shape and bool(((val == rv) | (torch.isnan(val) & torch.isnan(rv))).all())
+                    else:
+                        same = torch.allclose(val, rv, rtol=1e-10, atol=1e-13, equal_nan=True)
                     if not same:
                         i = int((val - rv).abs().reshape(-1).argmax()) if val.numel() else 0
                         fails.append((f"accessor-remembers-earlier-setting:{nm}",
@@ -676,7 +685,7 @@ def _closed_form(model, p, X, mode):
     if strat == "ciq":
         Bm = _sym_inv_sqrt(Kj) @ Kzx
         Kss = Kxx + 2 * jit * torch.eye(X.shape[0])      # the CIQ forward adds the jitter twice
-        return {"Kss": Kss, "B": Bm, "S": S, "kind": "approx"}
+        return {"Kss": Kss, "B": Bm, "S": S, "kind": "approx", "cond": torch.linalg.cond(Kj).item()}
     L = torch.linalg.cholesky(Kj)
     Bm = torch.linalg.solve_triangular(L, Kzx, upper=False)
     Kss = Kxx + jit * torch.eye(X.shape[0])
@@ -750,13 +759,20 @@ def run_vstrat(ctx, drv, p, want_driver=True):
                 Sn = max(cf["S"].abs().max().item(), 1.0)
                 ref = cf["Kss"] + cf["B"].T @ (cf["S"] - torch.eye(cf["S"].shape[0])) @ cf["B"]
                 diff = (ref - qc).abs().max().item()
-                tolf = (1e-7 if cf["kind"] == "exact" else 2e-3) * sscale * Sn
+                # CIQ: linear_operator's contour-integral quadrature of K^-1/2 is accurate to ~1e-11 for cond(K_zz) <= 6e3, 5e-4 at
+                # 9e3 and a few 1e-2 beyond 3e4 (measured); its accuracy is the primitive's contract, not gpytorch's algebra:
+                # judged for cond <= 1e3 (tolerance 1e-4), recorded as an ASSUMPTION line otherwise
+                tolf = (1e-7 if cf["kind"] == "exact" else 1e-4) * sscale * Sn
                 if diff > tolf:
-                    if cf["kind"] == "approx" and diff <= 5e-2 * sscale * Sn:
-                        ctx is not None and ctx.assumption(f"C07 CIQ contour quadrature: q(f) covariance {diff / sscale:.2e} (relative) from the closed form with the exact symmetric root")
+                    if cf["kind"] == "approx" and cf["cond"] > 1e3:
+                        if ctx is not None:
+                            ctx.count("ciq_closed_form_not_judged_cond>1e3")
+                            ctx.assumption(f"C07 CIQ contour quadrature (cond(K_zz) = {cf['cond']:.1e}): q(f) covariance {diff / sscale:.2e} "
+                                           f"(relative) from the closed form with the exact symmetric root")
                     else:
                         fails.append((f"{label}-vs-closed-form", f"{tag}: q(f) covariance differs from K_xx + jI + B^T (S - I) B (B = K_zz^-1/2 K_zx "
-                                      f"of the covariance branch, CURRENT parameters) by {diff:.3e} (scale {sscale:.3e})"))
+                                      f"of the covariance branch, CURRENT parameters) by {diff:.3e} (scale {sscale:.3e}"
+                                      + (f", cond(K_zz) = {cf['cond']:.1e}" if "cond" in cf else "") + ")"))
                 if want_driver and drv is not None and cf["kind"] == "exact":
                     tol = 1e-8 * sscale * Sn * max(1.0, Sn) + 1e-12
 
